@@ -41,12 +41,14 @@ PID = 'C08'
 RULE = ('cases = (package of 2-6 models in per-file or cube format, 6-20 wavelengths in either order, 1 aperture '
         '(distance-independent) or 3-5 apertures (distance-dependent), 3-5 model-identifying parameter columns, '
         'parameter table permuted and file names decoupled in the per-file format; 3-5 normalised filters inside the '
-        'SED range; extinction law; 1-2 sources planted from (m, A_V0 in range, scale s0 | grid distance d0) with flag '
+        'SED range, convolved in one call or (35%) in two calls with a fit + write_parameters in between, all in one '
+        'process and model directory; distance range handed over in kpc, pc, Mpc, cm or lyr; extinction law; 1-2 sources planted from (m, A_V0 in range, scale s0 | grid distance d0) with flag '
         '1 (relative error 1e-3..0.5, bias-compensated) or flag 4); a case is non-trivial when the package is '
         'non-degenerate for the planted data (every other model has chi2 > 1e-3); distinct = distinct canonical hash '
         'of the generated inputs')
 REQUIRED_BRANCHES = ['per_file', 'cube', 'dist_independent', 'dist_dependent', 'table_permuted', 'flag1', 'flag4',
-                     'av0_at_lower_bound', 'two_sources', 'wav_increasing', 'wav_decreasing', 'unused_band']
+                     'staged_convolution', 'staged_table_not_alphabetical', 'distance_unit_kpc', 'distance_unit_other',
+                     'dist_dependent_unit_not_kpc', 'av0_at_lower_bound', 'two_sources', 'wav_increasing', 'wav_decreasing', 'unused_band']
 ASSUMPTIONS = ['IEEE rounding is not modelled: chi2 <= 1e-6 n, |A_V - A_V0|, |scale - s0| <= 1e-6 + first-order '
                'propagation of the storage precision of the model fluxes + 1e-12 x condition number of the normal equations',
                'extinction coefficients at the filters differ pairwise by >= 0.02 (well-conditioned regression, as in C01)',
@@ -61,6 +63,8 @@ FLOOR = 1e-3
 PAR_NAMES = ['MASS', 'TEMP', 'LUMIN', 'INCL', 'AGE']
 LETTERS = 'abcdefghijklmnopqrstuvwxyz0123456789'
 LN10 = math.log(10.)
+from astropy import units as _u          # noqa: E402
+UNITS = {'kpc': _u.kpc, 'pc': _u.pc, 'Mpc': _u.Mpc, 'cm': _u.cm, 'lyr': _u.lyr}
 
 
 # ----------------------------------------------------------------------------- generation
@@ -102,9 +106,13 @@ def gen_case(rng, directed=None):
         filters.append(dict(name='F%d' % len(filters), cen=cen, wav=fw, resp=resp))
     theta = [nice(rng, 1., 10., 2) for _ in range(nf)]
     # distance grid and aperture table
+    dunit = directed.get('dunit', rng.choice(['kpc', 'kpc', 'pc', 'Mpc', 'cm', 'lyr']))
     if dep:
         dmin = nice(rng, 0.1, 5., 2)
         dmax = float('%.3g' % (dmin * rng.uniform(1.5, 10.)))
+        # the range is handed to fit() in `dunit`; the kpc values are the ones the code derives from it
+        drange_u = [float('%.4g' % x) for x in (np.array([dmin, dmax]) * UNITS['kpc']).to(UNITS[dunit]).value]
+        dmin, dmax = [float(x) for x in (np.array(drange_u) * UNITS[dunit]).to(UNITS['kpc']).value]
         step = float('%.2g' % (math.log10(dmax / dmin) / rng.randint(2, 20)))
         nap = rng.randint(3, 5)
         a_lo = float('%.3g' % (min(theta) * dmin * 1000. * rng.uniform(0.3, 0.95)))
@@ -116,6 +124,7 @@ def gen_case(rng, directed=None):
         aps = sorted(aps)
     else:
         dmin, dmax, step = 1., float(rng.choice([2., 5.])), 0.05
+        drange_u = [float('%.4g' % x) for x in (np.array([dmin, dmax]) * UNITS['kpc']).to(UNITS[dunit]).value]
         aps = None
     nap = len(aps) if aps else 1
     # model SEDs: different slopes and bumps, random wiggle per wavelength, aperture growth curves
@@ -193,8 +202,12 @@ def gen_case(rng, directed=None):
         errs = [nice(rng, 1e-3, 0.5, 2) for _ in range(nf)]
         sources.append(dict(name='src_%d' % si, m=m, av0=av0, s0=round(rng.uniform(-1., 1.5), 3),
                             di=rng.randrange(n_grid), flags=flags, errs=errs))
+    # staged history: convolve a first group of filters, fit + write_parameters, convolve the remaining filter(s)
+    # into the same package, fit + write_parameters with all filters (one process, one model directory)
+    staged = directed.get('staged', rng.random() < 0.35)
+    n_first = rng.randint(2, nf - 1) if staged else nf
     return dict(fmt=fmt, dep=dep, names=names, wav=wav, aps=aps, flux=flux, filters=filters, theta=theta,
-                drange=[dmin, dmax], step=step, cols=cols, table_order=table_order, stems=stems,
+                drange=drange_u, dunit=dunit, n_first=n_first, step=step, cols=cols, table_order=table_order, stems=stems,
                 tab_w=tw, tab_chi=chi, av=[av_lo, av_hi], sources=sources,
                 n_data_min=rng.randint(1, 3))
 
@@ -208,7 +221,15 @@ DIRECTED = [
     dict(fmt='cube', dep=True, flags='mixed', nsrc=2),
     dict(fmt='per_file', dep=False, flags='flag4', nsrc=1, degenerate=True),
     dict(fmt='per_file', dep=True, flags='flag1', nsrc=1, av0_lo=True),
+    dict(fmt='per_file', dep=False, flags='flag4', nsrc=1, staged=True, dunit='kpc'),
+    dict(fmt='per_file', dep=True, flags='flag1', nsrc=2, staged=True, dunit='pc'),
+    dict(fmt='cube', dep=True, flags='flag4', nsrc=1, staged=False, dunit='Mpc'),
+    dict(fmt='per_file', dep=True, flags='mixed', nsrc=1, staged=False, dunit='cm'),
+    dict(fmt='cube', dep=True, flags='flag1', nsrc=1, staged=True, dunit='lyr'),
+    dict(fmt='per_file', dep=False, flags='mixed', nsrc=2, staged=True, dunit='pc'),
 ]
+for _d in DIRECTED[:8]:
+    _d.setdefault('staged', False)
 
 
 def gen_cases(seed, tier):
@@ -251,8 +272,12 @@ def own_convolved(case, filt_objs):
     return out
 
 
+def drange_quantity(case):
+    return np.array(case['drange'], dtype=float) * UNITS[case.get('dunit', 'kpc')]
+
+
 def grid(case):
-    dmin, dmax = case['drange']
+    dmin, dmax = drange_quantity(case).to(UNITS['kpc']).value
     n = int(np.ceil(1 + (np.log10(dmax) - np.log10(dmin)) / case['step']))
     return np.logspace(np.log10(dmin), np.log10(dmax), n)
 
@@ -287,17 +312,45 @@ def synthesise(case, src, own, ks):
     return fl, er, scale, logf
 
 
+def stage_case(case, nfilt):
+    """the case restricted to its first `nfilt` filters (sources keep those bands only)"""
+    if nfilt >= len(case['filters']):
+        return case
+    c = dict(case)
+    c['filters'] = case['filters'][:nfilt]
+    c['theta'] = case['theta'][:nfilt]
+    c['sources'] = [dict(s, flags=s['flags'][:nfilt], errs=s['errs'][:nfilt]) for s in case['sources']]
+    return c
+
+
 def run_pipeline(case, d):
-    """runs the whole chain on the real code; returns a dict of everything observed"""
+    """runs the whole history on the real code, in this process and in one model directory:
+    [convolve first filters -> fit -> write_parameters ->] convolve the remaining filters -> fit ->
+    write_parameters.  returns [(stage case, observations)], the final stage last"""
+    from sedfitter.convolve import convolve_model_dir
+    params_by_name = build_package(case, d)
+    nf = len(case['filters'])
+    n_first = case.get('n_first', nf)
+    stages = [n_first, nf] if n_first < nf else [nf]
+    done = 0
+    out = []
+    for k, upto in enumerate(stages):
+        new = [pk.make_filter(f['name'], f['cen'], f['wav'], f['resp']) for f in case['filters'][done:upto]]
+        with common.quiet():
+            convolve_model_dir(d, new, memmap=False)
+        done = upto
+        sc = stage_case(case, upto)
+        out.append((sc, run_stage(sc, d, params_by_name, k)))
+    return out
+
+
+def run_stage(case, d, params_by_name, k):
+    """synthesise photometry in the filters of this stage, fit, list parameters"""
     from astropy import units as u
     from sedfitter import fit, write_parameters
-    from sedfitter.convolve import convolve_model_dir
     from sedfitter.convolved_fluxes import ConvolvedFluxes
     from sedfitter.fit_info import FitInfoFile
-    params_by_name = build_package(case, d)
     filt_objs = [pk.make_filter(f['name'], f['cen'], f['wav'], f['resp']) for f in case['filters']]
-    with common.quiet():
-        convolve_model_dir(d, filt_objs, memmap=False)
     own = own_convolved(case, filt_objs)
     names = case['names']
     file_flux = np.zeros_like(own)
@@ -310,19 +363,19 @@ def run_pipeline(case, d):
     ext = pk.make_extinction(case['tab_w'], case['tab_chi'])
     ks = np.asarray(ext.get_av(np.array([f['cen'] for f in case['filters']]) * u.micron), dtype=float)
     planted = []
-    datafile = os.path.join(d, 'data.txt')
+    datafile = os.path.join(d, 'data_%d.txt' % k)
     with open(datafile, 'w') as fh:
         for src in case['sources']:
             fl, er, scale, logf = synthesise(case, src, own, ks)
             planted.append(dict(flux=fl, err=er, scale=scale, logf=logf))
             fh.write('%s 0.0 0.0 %s %s\n' % (src['name'], ' '.join(str(x) for x in src['flags']),
                                            ' '.join('%r %r' % (a, b) for a, b in zip(fl, er))))
-    out = os.path.join(d, 'fit_output.fitinfo')
-    txt = os.path.join(d, 'parameters.txt')
+    out = os.path.join(d, 'fit_output_%d.fitinfo' % k)
+    txt = os.path.join(d, 'parameters_%d.txt' % k)
     with common.quiet():
         fit(datafile, [f['name'] for f in case['filters']], np.array(case['theta']) * u.arcsec, d, out,
             n_data_min=case['n_data_min'], extinction_law=ext, av_range=tuple(case['av']),
-            distance_range=np.array(case['drange']) * u.kpc, output_format=('N', len(names)))
+            distance_range=drange_quantity(case), output_format=('N', len(names)))
         write_parameters(out, txt, select_format=('N', 1))
     records = []
     fin = FitInfoFile(out, 'r')
@@ -401,8 +454,31 @@ def model_exact(case, src, run, si):
     return out
 
 
-def check_property(case, run, use_driver=True):
-    """the statement of C08 on the real outputs.  returns (ok, detail, n_nontrivial, n_degenerate, violates)"""
+def check_property(case, runs, use_driver=True):
+    """the statement of C08 on every stage of the history (the final one last).
+    returns (ok, detail, n_nontrivial of the final stage, n_degenerate, violates, n_nontrivial of earlier stages)"""
+    n_early = 0
+    n_deg_all = 0
+    for k, (sc, run) in enumerate(runs):
+        ok, detail, n_ok, n_deg, violates = check_stage(sc, run, use_driver)
+        n_deg_all += n_deg
+        if not ok:
+            if len(runs) == 1:
+                stage = ''
+            elif k == len(runs) - 1:
+                stage = ('final stage (%d filters, the last %d convolved in a second call after a fit + write_parameters): '
+                         % (len(sc['filters']), len(sc['filters']) - len(runs[0][0]['filters'])))
+            else:
+                stage = 'first stage (%d of %d filters): ' % (len(sc['filters']), len(case['filters']))
+            return False, stage + detail, n_ok, n_deg_all, violates, n_early
+        if k < len(runs) - 1:
+            n_early += n_ok
+    return True, '', n_ok, n_deg_all, None, n_early
+
+
+def check_stage(case, run, use_driver=True):
+    """the statement of C08 on the real outputs of one fit + write_parameters.
+    returns (ok, detail, n_nontrivial, n_degenerate, violates)"""
     names = case['names']
     # convolved file rows labelled m must be m's own convolution (otherwise nothing downstream can recover m)
     bad = ~np.isclose(run['file_flux'], run['own'], rtol=1e-9, atol=0.)
@@ -424,6 +500,10 @@ def check_property(case, run, use_driver=True):
     for rec, blk, src in zip(run['records'], blocks, kept):
         si = case['sources'].index(src)
         m = src['m']
+        n_fitted = sum(1 for f in src['flags'] if f in (1, 4))
+        if n_fitted < (1 if case['dep'] else 2):
+            n_deg += 1            # too few bands in this stage to determine (A_V, scale): outside the quantifier
+            continue
         da, ds, dchi, nfit = budgets(case, src, run, si)
         planted_scale = run['planted'][si]['scale']
         # ---- non-degeneracy of the package for these data
@@ -482,7 +562,7 @@ def run_case(case):
             import traceback
             return CaseResult(False, violates=True, key=key,
                               detail='the pipeline raised on an in-domain input: %r\n%s' % (e, traceback.format_exc()[-1500:]))
-        ok, detail, n_ok, n_deg, violates = check_property(case, run)
+        ok, detail, n_ok, n_deg, violates, n_early = check_property(case, run)
         if not ok:
             return CaseResult(False, detail=('property fails on the real code: ' if violates else '') + detail,
                               violates=violates, key=key)
@@ -504,13 +584,24 @@ def run_case(case):
                     branches.add('unused_band')
                 if s['av0'] == case['av'][0]:
                     branches.add('av0_at_lower_bound')
+            kpc_unit = case.get('dunit', 'kpc') == 'kpc'
+            branches.add('distance_unit_kpc' if kpc_unit else 'distance_unit_other')
+            if case['dep'] and not kpc_unit:
+                branches.add('dist_dependent_unit_not_kpc')
+            if len(run) > 1:
+                branches.add('staged_convolution')
+                table_names = [case['names'][i] for i in case['table_order']]
+                if case['fmt'] == 'per_file' and table_names != sorted(table_names) and n_early:
+                    branches.add('staged_table_not_alphabetical')
         if n_deg:
             branches.add('degenerate_skipped')
         sample = dict(fmt=case['fmt'], dist_dependent=case['dep'], n_models=len(case['names']), n_wav=len(case['wav']),
                       apertures=case['aps'], n_filters=len(case['filters']), table_order=case['table_order'],
                       planted=[dict(model=case['names'][s['m']], av0=s['av0'], flags=s['flags'], errs=s['errs'])
                                for s in case['sources']],
-                      first_row=run['text'][4] if len(run['text']) > 4 else None)
+                      distance_range=[case['drange'], case.get('dunit', 'kpc')],
+                      filters_per_convolve_call=([case['n_first'], len(case['filters']) - case['n_first']] if len(run) > 1 else [len(case['filters'])]),
+                      first_row=run[-1][1]['text'][4] if len(run[-1][1]['text']) > 4 else None)
         return CaseResult(True, branches=branches, key=key, nontrivial=n_ok > 0, sample=sample)
     finally:
         shutil.rmtree(d, ignore_errors=True)
@@ -533,7 +624,7 @@ def search(seed, tier, disagreeing):
             except Exception as e:
                 found.append((case, 'the pipeline raised on an in-domain input: %r' % (e,)))
                 continue
-            ok, detail, _, _, violates = check_property(case, run, use_driver=False)
+            ok, detail, _, _, violates, _ = check_property(case, run, use_driver=False)
             if not ok and violates:
                 found.append((case, 'property fails on the real code: ' + detail))
         finally:
